@@ -185,7 +185,7 @@ DEFAULT_PROFILE = dict(
     dip_spellings=True, result_dip=False, keyword_params=True, nested_structs=True,
     max_params=5, cb_struct_args=True, opt_slices=True, char=False, ordering=True,
     mut_self=True, opt_mut_oref=True, namespaces=False, byte_slices=True, renames=False,
-    strs_utf8=False, result_prim_err=True,
+    strs_utf8=False, result_prim_err=True, opt_owned=False,
 )
 
 
@@ -338,6 +338,8 @@ class Gen:
                 inner = ("enum", self.pick(self.enums).name)
             elif inner_c < 0.75 and [s for s in self.structs if not s.lifetimes]:
                 inner = ("struct", self.pick([s for s in self.structs if not s.lifetimes]).name)
+            elif p["opt_owned"] and p["owned_slices"] and inner_c < 0.82:
+                inner = self.pick([("oslice", self.pick(SLICE_PRIMS[:-1])), ("ostr", self.pick(["ustr", "utf8", "u16"]))])
             elif p["opt_slices"] and inner_c < 0.9 and (p["option"] or True):
                 inner = self.pick([("slice", self.pick(SLICE_PRIMS[:-1]), False, None, "std"), ("str", "ustr", None, "std")]
                                   + ([("str", "utf8", None, "std")] if p["utf8"] else []))
